@@ -245,7 +245,7 @@ Print Assumptions C11_attest_event.
    ToWormholeMessage / parseAttestToken / GetTokenInfo / toMessagePublication are applied where watcher.go / reobserve.go apply
    them.  `faithful c EP HP AP f` is what proofs.AlphPipelineProofs.pipeline_end_to_end (props/C08.v: C08_pipeline_end_to_end)
    establishes for EVERY message f handed to the signer along EVERY history, on either path. *)
-From WH Require Import model.AlphPipeline proofs.AlphPipelineProofs.
+From WH Require Import model.AlphPipeline proofs.AlphPipelineRead.
 From WH Require model.AlphWatcher.
 
 (* a forwarded message whose event is the one the contract emits and a node reports (event_fields, all values in range) has
@@ -275,12 +275,12 @@ Theorem C11_pipeline_message_fields : forall c EP HP AP f, faithful c EP HP AP f
     m_ts m = AlphWatcher.h_ts (xf_hdr f) / 1000 /\ m_tns m = (AlphWatcher.h_ts (xf_hdr f) mod 1000) * 1000000.
 Proof. exact faithful_message_fields. Qed.
 
-(* events whose values do not fit produce NO message: neither a held event on the polling path (whatever the node says about
-   the token they name) nor anything a forwarded message could stem from *)
+(* events whose values do not fit produce NO message: toUnconfirmedEvent rejects them (nothing is ever held for them on the
+   polling path), and no handed-over message stems from one - on either path *)
 Theorem C11_pipeline_unfit_no_message : forall e, unfit e ->
-  (forall a, xkeep1 a e = []) /\ (forall c EP HP AP f, faithful c EP HP AP f -> xf_ev f <> e).
+  xto_unconfirmed e = None /\ (forall c EP HP AP f, faithful c EP HP AP f -> xf_ev f <> e).
 Proof.
-  intros e H. split; [intro a; apply xkeep1_unfit; exact H|].
+  intros e H. split; [apply unfit_unconv; exact H|].
   intros c EP HP AP f Hf E. apply (faithful_not_unfit c EP HP AP f Hf). rewrite E. exact H.
 Qed.
 
@@ -320,45 +320,31 @@ Definition px_e3 : xevent := {| x_uid := 3; x_block := 5; x_txid := to_hex (repe
                                 x_fields := event_fields px_bridge 2 8 px_nonce [x01] 256 |}.
 Definition px_ans : xmc_ans := XMcRes [XOk [vbytes (str "USDT")]; XOk [vbytes (str "Tether")]; XOk [vu256 8]].
 Definition px_hdr : AlphWatcher.header := {| AlphWatcher.h_ts := 1663000000123; AlphWatcher.h_height := 100 |}.
-Definition px_ops : list xop :=
-  [ XPoll (Some 3) (fun _ _ => XPage [px_e1; px_e2; px_e3] 3) (fun _ => px_ans); XDeliver;
-    XTick 400 1663000000123000 (fun _ => Some true) (fun _ => Some px_hdr) ].
 Definition px_EP (e : xevent) : Prop := x_block e = 5.
 Definition px_HP (b : Z) (h : AlphWatcher.header) : Prop := h = px_hdr.
 Definition px_AP (a : xmc_ans) : Prop := a = px_ans.
+Definition px_w (e : xevent) : wmsg := match conv e with Some w => w | None => {| w_txid := []; w_sender := []; w_target := 0; w_nonce := 0; w_payload := []; w_seq := 0; w_cl := 0 |} end.
+(* the two messages as the hand-over builds them (mkxfwd = `msgChan <- msg.toMessagePublication(header)`) *)
+Definition px_f : xfwd := mkxfwd px_e1 (px_w px_e1) None px_hdr.
+Definition px_g : xfwd := mkxfwd px_e2 (px_w px_e2) (Some {| t_id := px_tokid; t_decimals := 8; t_symbol := str "USDT"; t_name := str "Tether" |}) px_hdr.
 
 Example C11_pipeline_hypotheses_satisfiable :
-  exists f g, xo_fwd (snd (xstep px_c (xfinal px_c (xinit 0) (firstn 2 px_ops)) (nth 2 px_ops XDeliver))) = [f; g] /\
-    faithful px_c px_EP px_HP px_AP f /\ faithful px_c px_EP px_HP px_AP g /\
-    x_fields (xf_ev f) = event_fields px_bridge 65535 18446744073709551615 px_nonce [x01; x02; x03] 255 /\ 0 <= AlphWatcher.h_ts (xf_hdr f) /\
-    (let m := xf_pub f in m_tchain m = 65535 /\ m_seq m = 18446744073709551615 /\ m_cl m = 255 /\ m_nonce m = 317018585 /\ m_ts m = 1663000000 /\ m_echain m = 255) /\
-    xis_attest (xf_msg g) = true /\ attest_payload px_tokid go_chain_id_alephium 8 px_sym px_name px_nonce = Some (m_payload (xf_pub g)) /\
-    unfit px_e3.
+  faithful px_c px_EP px_HP px_AP px_f /\ faithful px_c px_EP px_HP px_AP px_g /\
+  x_fields (xf_ev px_f) = event_fields px_bridge 65535 18446744073709551615 px_nonce [x01; x02; x03] 255 /\ 0 <= AlphWatcher.h_ts (xf_hdr px_f) /\
+  (let m := xf_pub px_f in m_tchain m = 65535 /\ m_seq m = 18446744073709551615 /\ m_cl m = 255 /\ m_nonce m = 317018585 /\ m_ts m = 1663000000 /\ m_tns m = 123000000 /\ m_echain m = 255) /\
+  xis_attest (xf_msg px_g) = true /\ attest_payload px_tokid go_chain_id_alephium 8 px_sym px_name px_nonce = Some (m_payload (xf_pub px_g)) /\
+  xvalidate_attest (xf_msg px_g) px_ans = XVaOk {| t_id := px_tokid; t_decimals := 8; t_symbol := str "USDT"; t_name := str "Tether" |} /\
+  unfit px_e3.
 Proof.
-  assert (Hok : Forall (xop_ok px_c px_EP px_HP px_AP) px_ops).
-  { unfold px_ops. repeat apply Forall_cons; try apply Forall_nil; try exact I.
-    - split; [|intro i; reflexivity]. intros k s evs next H. injection H as <- <-. repeat constructor.
-    - intros b h H. injection H as <-. reflexivity. }
-  pose proof (pipeline_end_to_end px_c px_EP px_HP px_AP px_ops (xinit 0) (XInv_init _ _ _ 0) Hok) as J.
-  remember (xall_fwds px_c (xinit 0) px_ops) as l eqn:E.
-  assert (E1 : map snd l = xo_fwd (snd (xstep px_c (xfinal px_c (xinit 0) (firstn 2 px_ops)) (nth 2 px_ops XDeliver)))).
-  { subst l. unfold px_ops. cbn [xall_fwds firstn xfinal nth]. rewrite app_nil_r.
-    set (s2 := fst (xstep px_c (fst (xstep px_c (xinit 0) _)) XDeliver)).
-    assert (N1 : xo_fwd (snd (xstep px_c (xinit 0) (XPoll (Some 3) (fun _ _ => XPage [px_e1; px_e2; px_e3] 3) (fun _ => px_ans)))) = []) by (vm_compute; reflexivity).
-    assert (N2 : xo_fwd (snd (xstep px_c (fst (xstep px_c (xinit 0) (XPoll (Some 3) (fun _ _ => XPage [px_e1; px_e2; px_e3] 3) (fun _ => px_ans)))) XDeliver)) = []) by (vm_compute; reflexivity).
-    rewrite N1, N2. cbn [map app]. rewrite map_map. cbn [snd]. apply map_id. }
-  remember (xo_fwd (snd (xstep px_c (xfinal px_c (xinit 0) (firstn 2 px_ops)) (nth 2 px_ops XDeliver)))) as fw eqn:Ef.
-  assert (E2 : map (fun f => x_uid (xf_ev f)) fw = [1; 2]) by (subst fw; vm_compute; reflexivity).
-  destruct fw as [|f [|g [|x t]]]; try discriminate E2.
-  destruct l as [|[o1 f'] [|[o2 g'] [|y t']]]; try discriminate E1. cbn [map snd] in E1. injection E1 as -> ->.
-  inversion J as [|x0 t0 [[Ff _] _] J1]; subst x0 t0. inversion J1 as [|x1 t1 [[Fg _] _] _]; subst x1 t1. cbn [fst snd] in Ff, Fg.
-  exists f, g. split; [reflexivity|]. split; [exact Ff|]. split; [exact Fg|].
-  assert (V : x_fields (xf_ev f) = event_fields px_bridge 65535 18446744073709551615 px_nonce [x01; x02; x03] 255 /\ AlphWatcher.h_ts (xf_hdr f) = 1663000000123 /\
-              (let m := xf_pub f in m_tchain m = 65535 /\ m_seq m = 18446744073709551615 /\ m_cl m = 255 /\ m_nonce m = 317018585 /\ m_ts m = 1663000000 /\ m_echain m = 255) /\
-              xis_attest (xf_msg g) = true /\ attest_payload px_tokid go_chain_id_alephium 8 px_sym px_name px_nonce = Some (m_payload (xf_pub g))).
-  { assert (Ev : [f; g] = xo_fwd (snd (xstep px_c (xfinal px_c (xinit 0) (firstn 2 px_ops)) (nth 2 px_ops XDeliver)))) by exact Ef.
-    clear - Ev. revert Ev. vm_compute. intro Ev. injection Ev as -> ->. repeat split; reflexivity. }
-  destruct V as (V1 & V2 & V3 & V4 & V5). repeat apply conj; auto; try (rewrite V2; lia); try apply V3.
+  assert (NA : xis_attest (xf_msg px_f) = false) by (vm_compute; reflexivity).
+  split.
+  { unfold faithful. do 6 (split; [vm_compute; reflexivity|]). intro A. rewrite NA in A. discriminate A. }
+  split.
+  { unfold faithful. do 6 (split; [vm_compute; reflexivity|]). intros _.
+    exists {| t_id := px_tokid; t_decimals := 8; t_symbol := str "USDT"; t_name := str "Tether" |}, px_ans.
+    split; [reflexivity|]. split; [vm_compute; reflexivity|]. split; [reflexivity|vm_compute; reflexivity]. }
+  split; [vm_compute; reflexivity|]. split; [vm_compute; discriminate|]. split; [vm_compute; repeat split; reflexivity|].
+  split; [vm_compute; reflexivity|]. split; [vm_compute; reflexivity|]. split; [vm_compute; reflexivity|].
   eapply (C11_pipeline_rejected_values_are_unfit px_e3); [reflexivity|right; right; vm_compute; intros [_ H]; discriminate H].
 Qed.
 
